@@ -687,12 +687,12 @@ func rectBody(rects [][4]int) func(c *mc.Ctx, item int) mc.Verdict {
 // ---------------------------------------------------------------- families
 
 func families(tier string) []mc.Family {
-	// budgets per family: they sum to 45 s (quick) / 9.5 min (thorough)
+	// budgets per family: they sum to 85 s (quick) / 16.5 min (thorough; the product family needs about 8 min of them on an idle machine)
 	nOut, nMat, nRot := quickOutlines, quickMatrices, 1
 	budgets := []time.Duration{6 * time.Second, 60 * time.Second, 6 * time.Second, 10 * time.Second, 3 * time.Second}
 	if tier == "thorough" {
 		nOut, nMat, nRot = len(outlines), len(matrices), 1
-		budgets = []time.Duration{20 * time.Second, 480 * time.Second, 20 * time.Second, 40 * time.Second, 10 * time.Second}
+		budgets = []time.Duration{20 * time.Second, 900 * time.Second, 20 * time.Second, 40 * time.Second, 10 * time.Second}
 	}
 	nEnc := numEncodings()
 	nKinds := len(encKindNames)
